@@ -10,7 +10,7 @@
     Ids are lists of hex digits (all ids of one kind have the same length); a prefix is a
     list of hex digits; byte-wise lexicographic order on ids = digit-wise order here.
     Definitions only. *)
-From Verif Require Import Base.Prelude.
+From Verif Require Import Base.Prelude Base.DagI.
 
 Definition id := list nat.                    (* hex digits *)
 (** case files write ids as strings of hex digits *)
@@ -244,7 +244,8 @@ Record case := mk_case {
   (* one entry per index segment, newest first; a segment lists (commit id, change id) by
      local position, with the segment's first global position *)
   c_segs : list (nat * list (id * id));
-  c_visible : list nat;                 (* global positions reachable from the view's heads *)
+  c_graph : graph;                      (* parent positions of every indexed commit *)
+  c_heads : list nat;                   (* positions of the view's heads *)
   c_dis : option (list id);             (* commit ids of the disambiguation set *)
   c_dis_changes : option (list id);     (* the change ids of those commits (with repetitions) *)
   (* names of local bookmarks and tags whose target is not absent (normal or conflicted), that
@@ -271,6 +272,9 @@ Definition change_table (seg : nat * list (id * id)) : @table (list nat) :=
                  (snd seg) (fst seg, [])).
 
 Definition lnat_eqb := list_eqb Nat.eqb.
+(** composite.rs:296 resolve_change_targets_for_positions: a target is Visible iff it is
+    reachable from the view's heads (AncestorsBitSet), i.e. an ancestor of a head *)
+Definition visible_at (c : case) (p : nat) : bool := anc_any (c_graph c) (c_heads c) p.
 Definition res_of_commit (r : resolution id) : res :=
   match r with NoMatch => RNo | AmbiguousMatch => RAmb | SingleMatch k => ROne k [] end.
 Definition res_of_change (r : resolution (id * list nat)) : res :=
@@ -291,7 +295,7 @@ Definition query_corr (c : case) (cs : list (@table unit)) (hs : list (@table (l
   | QResChange pfx r vis =>
       res_eqb (res_of_change (resolve_change pfx hs)) r &&
       match r with
-      | ROne _ ps => list_eqb Bool.eqb vis (map (fun p => existsb (Nat.eqb p) (c_visible c)) ps)
+      | ROne _ ps => list_eqb Bool.eqb vis (map (visible_at c) ps)
       | _ => match vis with [] => true | _ => false end
       end
   | QShortCommit2 k len => (shortest_commit2 (c_dis c) k cs =? len)%nat
@@ -355,7 +359,7 @@ Section Checker.
     | QResChange pfx r vis =>
         res_spec pfx all_changes r change_positions &&
         match r with
-        | ROne _ ps => list_eqb Bool.eqb vis (map (fun p => existsb (Nat.eqb p) (c_visible c)) ps)
+        | ROne _ ps => list_eqb Bool.eqb vis (map (visible_at c) ps)
         | _ => match vis with [] => true | _ => false end
         end
     | QShortCommit2 k len =>
@@ -437,7 +441,7 @@ Definition nodup_ids (l : list id) : bool :=
 Definition okb (c : case) : bool :=
   let ac := all_commits_of c in
   let ah := all_changes_of c in
-  negb (c_panicked c) && nodup_ids ac && forallb (query_ok c ac ah) (c_queries c).
+  negb (c_panicked c) && wfb (c_graph c) && nodup_ids ac && forallb (query_ok c ac ah) (c_queries c).
 Definition check_case (c : case) : N :=
   let cs := map commit_table (c_segs c) in
   let hs := map change_table (c_segs c) in
